@@ -36,6 +36,14 @@ class FixedIndex(IndexBase):
         """Get new args."""
         return (self._value,)
 
+    def __reduce__(self):
+        """Pickle by value only.
+
+        Instances are cached per process: the state (with a hash that
+        depends on the process) must not be copied onto the cached instance.
+        """
+        return (FixedIndex, (self._value,))
+
     def __new__(cls, value):
         """Create new FixedIndex."""
         self = FixedIndex._cache.get(value)
